@@ -506,6 +506,8 @@ fn main() {
                     .replace("if current_leader ~= ARGV[2] then", "if false then")
                     .replace("if tonumber(ARGV[1]) < current_token then", "if false then")
             }
+            // the repo snapshot's write_block.lua (scan stops at the first lower height)
+            "ref_early_exit" => wb = conform::REF_WRITE_BLOCK.to_string(),
             "promote_no_nx" => pl = pl.replace(", \"NX\")", ")"),
             "promote_decr" => pl = pl.replace("\"INCR\"", "\"DECR\""),
             _ => report.inconclusive(format!("unknown mutant {m}")),
@@ -610,24 +612,36 @@ fn main() {
 
     // observation thresholds: a run that elected nobody, published nothing or never hit
     // a fault is inconclusive
-    let scale = waves as u64;
-    report.require("universe.completed", (n_universes as u64) * 3 / 4);
-    report.require("universe.with_election", (n_universes as u64) * 3 / 4);
-    report.require("replica.elections", 40 * scale);
-    report.require("replica.publish.ok", 1500 * scale);
-    report.require("commits.via_reconcile", 100 * scale);
-    report.require("oracle.heights_committed_by_2plus_replicas", 50 * scale);
-    report.require("srv.promote.lock_held", 200 * scale);
-    report.require("srv.write_block.reject.lost_lease", 20 * scale);
-    report.require("srv.write_block.reject.height_exists", 5 * scale);
-    report.require("srv.write_block.repair_written", 3 * scale);
-    report.require("srv.late_exec.write_block", 20 * scale);
-    report.require("srv.write_block.late_written", 5 * scale);
-    report.require("director.partitions", 40 * scale);
-    report.require("director.forced_expiries", 40 * scale);
-    report.require("director.wipes", 3 * scale);
-    report.require("fault.phases_with_protocol_activity", 150 * scale);
-    report.require("oracle.dumps_judged", 200 * scale);
+    let scale = (n_universes as u64).div_ceil(16).max(1);
+    let scen_each = (n_scenarios / scenario::SCENARIOS.len()) as u64;
+    if n_universes > 0 {
+        report.require("universe.completed", (n_universes as u64) * 3 / 4);
+        report.require("universe.with_election", (n_universes as u64) * 3 / 4);
+        report.require("replica.elections", 100 * scale);
+        report.require("replica.publish.ok", 400 * scale);
+        report.require("commits.via_reconcile", 150 * scale);
+        report.require("oracle.heights_committed_by_2plus_replicas", 100 * scale);
+        report.require("srv.promote.lock_held", 2000 * scale);
+        report.require("srv.write_block.reject.lost_lease", 80 * scale);
+        report.require("srv.write_block.reject.height_exists", 60 * scale);
+        report.require("srv.write_block.reject.stale_token", 3 * scale);
+        report.require("srv.write_block.repair_written", 50 * scale);
+        report.require("srv.late_exec.write_block", 10 * scale);
+        report.require("srv.write_block.late_written", 4 * scale);
+        report.require("director.partitions", 100 * scale);
+        report.require("director.forced_expiries", 150 * scale);
+        report.require("director.wipes", 8 * scale);
+        report.require("replica.crash.hard", 6 * scale);
+        report.require("fault.reply_lost", 100 * scale);
+        report.require("fault.phases_with_protocol_activity", 150 * scale);
+        report.require("oracle.dumps_judged", 200 * scale);
+    }
+    if scen_each > 0 {
+        // at least a third of the runs of every directed scenario must reach its end
+        for name in scenario::SCENARIOS {
+            report.require(&format!("scenario.{name}.completed"), scen_each.div_ceil(3));
+        }
+    }
     report.info(
         "parameters",
         json!({"universes": n_universes, "parallel": parallel, "waves": waves, "duration_ms": duration_ms, "fixscan": fixscan}),
